@@ -719,6 +719,61 @@ def c03_extra(tier, seed, outdir, broken, violations, findings_seen):
     return stats
 
 
+def glue_extra(pid, kind, inner=None):
+    """extra(): the real command line against the model on whole tasks given as files (cli.glue_correspondence), after
+    an optional inner extra()."""
+    def extra(tier, seed, outdir, broken, violations, findings_seen):
+        import cli
+        stats = (inner(tier, seed, outdir, broken, violations, findings_seen) or {}) if inner else {}
+        ok, log = cli.build_cli()
+        if not ok:
+            broken.append({"kind": "cli-build", "detail": log})
+            return stats
+        gstats, failures = cli.glue_correspondence(kind, 40 if tier == "quick" else 1500, seed)
+        for f in failures[:5]:
+            violations.append(dict(f, property=pid, kind="command line vs model on a task given as files: " + f.get("what", "")))
+        stats = dict(stats)
+        stats["evaluations"] = stats.get("evaluations", 0) + gstats.get("evaluations", 0)
+        stats["distinct_nontrivial"] = stats.get("distinct_nontrivial", 0) + gstats.get("distinct_nontrivial", 0)
+        stats["samples"] = (stats.get("samples") or []) + (gstats.get("samples") or [])[:2]
+        stats["command_line_vs_model"] = {k: v for k, v in gstats.items() if k not in ("samples",)}
+        stats["command_line_vs_model"]["disagreements"] = len(failures)
+        return stats
+    return extra
+
+
+def glue_translate_extra(pid, withs, analyses):
+    """extra(): `anthem translate` / `anthem analyze` on program files against the model (cli.glue_translate)."""
+    def extra(tier, seed, outdir, broken, violations, findings_seen):
+        import cli
+        ok, log = cli.build_cli()
+        if not ok:
+            broken.append({"kind": "cli-build", "detail": log})
+            return {}
+        stats, failures = cli.glue_translate(withs, analyses, 30 if tier == "quick" else 1500, seed)
+        for f in failures[:5]:
+            violations.append(dict(f, property=pid, kind="command line vs model: " + f.get("what", "")))
+        stats["command_line_vs_model_disagreements"] = len(failures)
+        return stats
+    return extra
+
+
+def glue_theory_extra(pid, what):
+    """extra(): `anthem translate --with gamma|completion` / `anthem simplify` on theory files against the model."""
+    def extra(tier, seed, outdir, broken, violations, findings_seen):
+        import cli
+        ok, log = cli.build_cli()
+        if not ok:
+            broken.append({"kind": "cli-build", "detail": log})
+            return {}
+        stats, failures = cli.glue_theory(what, 150 if tier == "quick" else 100000, seed)
+        for f in failures[:5]:
+            violations.append(dict(f, property=pid, kind="command line vs model: " + f.get("what", "")))
+        stats["command_line_vs_model_disagreements"] = len(failures)
+        return stats
+    return extra
+
+
 def c10_extra(tier, seed, outdir, broken, violations, findings_seen):
     import cli
     ok, log = cli.build_cli()
@@ -831,6 +886,7 @@ PROPS = {
         "technique": "Lean 4 proof by structural induction on formulas + differential correspondence (exact trees)",
         "design_ref": "DESIGN.md 6/C05",
         "suites": [("gamma", 4000, 100000)],
+        "extra": glue_theory_extra("C05", "gamma"),
         "rule": "seeded random target-language formulas (depth 1-5, adversarial name pools, all connectives/quantifiers/sorts, "
                 "simplifier motifs) plus corpus/formulas.txt; request = Gamma::gamma on the real code vs Lean `gamma`, exact tree equality; "
                 "non-trivial = gamma changed the tree; distinct by request text",
@@ -840,6 +896,7 @@ PROPS = {
     "C07": {
         "search": search_generic,
         "suites": [("rewrite", 1500, 30000), ("simplify", 1200, 30000), ("substitute", 1500, 30000)],
+        "extra": glue_theory_extra("C07", "simplify"),
         "pins": [],
         "rule": "seeded adversarial formulas (shadowed/repeated binders, X = t(X), duplicated conjuncts, mixed-sort equalities, the shapes each "
                 "rewrite looks for) + corpus; (a) each of the 15 rewrites at the root, (b) each portfolio concatenation x {shallow, recursive, "
@@ -892,6 +949,7 @@ PROPS = {
     "C01": {
         "search": search_generic,
         "suites": [("tau_star", 2500, 60000)],
+        "extra": glue_translate_extra("C01", ["tau-star"], []),
         "rule": "seeded mini-gringo programs (1-4 rules, term depth 0-2, all six operators incl. / \\ .., all three head kinds, all signs and relations, "
                 "variable pool containing I J K Q R Z Z1 V V1 V2 N0... so that fresh-name choices collide) + corpus/programs.txt (incl. the usize-overflow witness); "
                 "Program::tau_star vs Lean `tauStar` (+ panic predicate), exact theory equality",
@@ -909,7 +967,7 @@ PROPS = {
     "C03": {
         "search": search_generic,
         "suites": [("strong", 400, 8000)],
-        "extra": c03_extra,
+        "extra": glue_extra("C03", "strong", c03_extra),
         "rule": "seeded program pairs x {independent, sequential} x {universal, forward, backward} x {mu, tau-star} x simplify x eq-break; StrongEquivalenceTask::decompose "
                 "vs Lean `strongProblems`: problem names, formula names, roles and formula trees all equal",
         "level_text": "Full for the model, both representations and all flags: strong_refutes - some emitted problem is refuted by the classical interpretation merging (H,T) iff H subset T on the "
@@ -929,6 +987,7 @@ PROPS = {
     "C04": {
         "search": search_completion,
         "suites": [("completion", 1500, 30000), ("analyze", 800, 20000)],
+        "extra": glue_theory_extra("C04", "completion"),
         "rule": "theories = tau* of seeded programs + hand-shaped implication theories (atom / #false / malformed consequents, repeated and non-variable head arguments, "
                 "reverse implications, free variables) with random input-predicate sets; Completion::completion vs Lean `completion` (incl. None), and is_tight vs `isTight`",
         "level_text": "Full for the model: completion_tight - for every program that is_tight accepts (no usize overflow of the global indices) and every set of input predicates not occurring in rule heads, "
@@ -945,6 +1004,7 @@ PROPS = {
     "C08": {
         "search": search_generic,
         "suites": [("natural", 1200, 30000)],
+        "extra": glue_translate_extra("C08", ["mu", "natural"], ["regularity"]),
         "rule": "seeded programs biased to arithmetic; natural() (incl. None), mu(), is_regular() vs the Lean model, exact equality",
         "level_text": "Full for the model: natural_correct - every formula the natural translation prints for a rule it accepts holds in an HT interpretation (H subset T; any world, assignment) iff the rule "
                       "is satisfied in the reference semantics; natural_equiv_tau_star / mu_equiv_tau_star - formula by formula HT-equivalence with tau*; mu_total, mu_correct. Integer-sorted variables are sound: "
@@ -959,6 +1019,7 @@ PROPS = {
     "C11": {
         "search": search_functional,
         "suites": [("analyze", 1500, 40000), ("natural", 600, 10000), ("external", 400, 8000)],
+        "extra": glue_translate_extra("C11", [], ["tightness", "regularity"]),
         "rule": "seeded programs + random private-predicate sets; is_tight / has_private_recursion / is_regular vs the Lean model (explicit cycle test instead of petgraph)",
         "level_text": "Full for the model: external_ok_implies / external_err_of_precheck (problems are emitted only if every applicability condition holds; otherwise an error and nothing else), "
                       "the cycle test is exact - isCyclic_sound (a reported cycle is a real cycle) and isCyclic_complete (every real cycle is reported: the reachability computation saturates after |nodes| rounds, "
@@ -1034,10 +1095,10 @@ PROPS = {
     "C02": {
         "search": search_generic,
         "suites": [("external", 500, 10000), ("external_text", 150, 3000)],
-        "extra": corpus_findings("C02", "external", {
+        "extra": glue_extra("C02", "external", corpus_findings("C02", "external", {
             "corpus:missing_output": ("missing_output", lambda a: a.strip() == "()"),
             "corpus:rename_clash": ("rename_clash", lambda a: a.count('(B iff (A (P "q_p" ((GV "V1"))))') >= 2),
-        }),
+        })),
         "rule": "external-equivalence tasks: the repo's example tasks (res/examples/external_equivalence, files chosen by Files::sort), hand-written corpus tasks, and seeded tasks from a role-aware "
                 "generator (input/output/private predicates, ranked bodies so that most programs are tight, placeholders of all sorts, specification sides, proof outlines with lemmas, definitions, "
                 "inductive lemmas; 1/5 deliberately violate an applicability condition) x all flags; ExternalEquivalenceTask::decompose vs Lean `externalProblems`: error kind or the full list of problems "
